@@ -1,14 +1,150 @@
 /-
-  C04 — placeholder property file: the protocol model and its theorems are being added (see DESIGN.md
-  section 6); until then the property is decided by the oracles of the harness client on explored schedules.
--/
-import CdsVerif.Base.Spec
-namespace CdsVerif.Props.C04
-open CdsVerif.Lin CdsVerif.Spec
+  C04 — grace period of the general-purpose user-space RCU (cds/urcu/details/gp.h, gpi.h, gpb.h):
+  an object retired after it became unreachable is not disposed while a thread that entered a read-side
+  critical section before the retirement is still inside it, including nested critical sections;
+  synchronize() returns only after all such readers have left.
+  Property theorems only; model in Algo/RCU/Model.lean, invariants in Algo/RCU/Inv.lean.
 
-/-- The history checker used by the harness is exact for the specification it judges against. -/
-theorem C04_history_oracle_exact (ops : List (OpRec GOp GRet)) (hwf : ∀ o ∈ ops, o.inv ≤ o.res) :
-    linCheck fifo ops = true ↔ Linearizable fifo ops :=
-  linCheck_iff _ ops hwf
+  All theorems quantify over every reachable state of the model: every schedule, every number of threads
+  `n`, every client program, both flavours (`b = false`: general_instant, `b = true`: general_buffered),
+  every threshold `c` and physical buffer capacity `bc`.
+  A section "begins" at the step that completes access_lock (store of the control word + fence).
+-/
+import CdsVerif.Algo.RCU.Inv
+namespace CdsVerif.Props.C04
+open CdsVerif.Machine CdsVerif.Spec CdsVerif.Algo CdsVerif.Algo.RCU
+
+/-- Grace period.  When a synchronize (either flavour) has completed its second flip_and_wait (its next step
+    is the release of the mutex):
+    * every thread that is now inside a critical section began that (outermost) section after the synchronizer
+      acquired the mutex - in fact after its first flip (`refClock`), which is later;
+    * in terms of the snapshot `mustWait` taken at the acquisition (the threads that were inside a section at that
+      instant, with the start clocks of those sections): none of them is still in the same section. -/
+theorem C04_grace_period (b : Bool) (n c bc : Nat) (s : RCU.St) (h : RCU.model.Reachable (RCU.init b n c bc) s)
+    (t : Tid) (w : RCU.W) (hpc : s.pc t = .release w) :
+    (∀ u k, s.secStart u = some k → s.acqClock < k ∧ s.refClock ≤ k) ∧
+    (∀ u k, s.mustWait u = some k → s.secStart u ≠ some k) := by
+  have hI := RCU.inv_reachable b n c bc s h
+  have hG := hI.G.body t
+  rw [hpc] at hG
+  obtain ⟨h1, h2⟩ := hG
+  have key : ∀ u k, s.secStart u = some k → s.acqClock < k ∧ s.refClock ≤ k := by
+    intro u k hk
+    have := h2 u
+    simp only [OldSec, not_exists, not_and] at this
+    have := this k hk
+    omega
+  refine ⟨key, fun u k hm hk => ?_⟩
+  have := hI.G.mw u k hm
+  have := key u k hk
+  omega
+
+/-- The ghost values used by `C04_grace_period` are those of the synchronizer that is about to release: while a
+    thread holds the mutex, no action of any thread changes `acqClock` or `mustWait`, and only the holder's first
+    flip sets `refClock`.  (They are written by the step that acquires the mutex: see the `example` below.) -/
+theorem C04_ghost_stable_while_held (b : Bool) (n c bc : Nat) (s : RCU.St) (h : RCU.model.Reachable (RCU.init b n c bc) s)
+    (t : Tid) (hh : RCU.holding (s.pc t) = true) (t' : Tid) (a : Act) (s' : RCU.St) (o : Obs)
+    (hap : RCU.model.apply s t' a = some (s', o)) :
+    s'.acqClock = s.acqClock ∧ s'.mustWait = s.mustWait ∧ (t' ≠ t → s'.refClock = s.refClock) := by
+  have hI := RCU.inv_reachable b n c bc s h
+  have hl := (hI.M.m1 t).1 hh
+  have tr := RCU.trans_of_apply hap
+  refine ⟨?_, ?_, ?_⟩
+  · cases tr <;> first | rfl | (rename_i hl' _; rw [hl] at hl'; exact absurd hl' (by simp))
+  · cases tr <;> first | rfl | (rename_i hl' _; rw [hl] at hl'; exact absurd hl' (by simp))
+  · intro hne
+    rcases RCU.trans_refClock hI.M tr with h1 | ⟨-, h1⟩
+    · exact h1
+    · have := h1 t (Ne.symm hne); rw [hh] at this; exact absurd this (by simp)
+
+/-- The acquisition step records the clock and the snapshot of the sections that are open at that instant. -/
+theorem C04_acquire_records (s : RCU.St) (t : Tid) (own : List RCU.Obj) (hpc : s.pc t = .acq own) (hl : s.locked = none) :
+    ∃ s' e, RCU.model.step s t = some (s', e) ∧ s'.locked = some t ∧ s'.acqClock = s.clock ∧ s'.mustWait = s.secStart := by
+  simp [RCU.model, RCU.step, hpc, hl]
+
+/-- No disposal under a pre-existing reader (both flavours; for the buffered flavour this rests on the epoch-tag
+    lemma `RCU.SyncQ` / `RCU.syncQ_first_flip`).  Whenever a step gives object `p` to its disposer, no thread is
+    inside a critical section that began before `retire p` was invoked: every open section began strictly later. -/
+theorem C04_no_dispose_under_preexisting_reader (b : Bool) (n c bc : Nat) (s : RCU.St)
+    (h : RCU.model.Reachable (RCU.init b n c bc) s) (t : Tid) (s' : RCU.St) (e : Ev)
+    (hstep : RCU.model.step s t = some (s', e)) (p : RCU.Obj) (hd : s'.disposed p ≠ s.disposed p) :
+    ∀ u k r, s.secStart u = some k → s.retiredAt p = some r → r < k := by
+  have hI := RCU.inv_reachable b n c bc s h
+  have tr := RCU.trans_of_step hstep
+  have hdisp : RCU.disposing (s.pc t) = some p := by
+    cases tr <;> dsimp only at hd <;> first | exact absurd rfl hd | skip
+    all_goals (rename_i q hpc; rw [hpc]; simp only [RCU.disposing]; grind [upd])
+  exact RCU.invQ_disposing hI.A hI.Q t p hdisp
+
+/-- State form of the same fact: a thread whose next step is a disposal of `p` sees `p` quiescent. -/
+theorem C04_about_to_dispose_quiescent (b : Bool) (n c bc : Nat) (s : RCU.St)
+    (h : RCU.model.Reachable (RCU.init b n c bc) s) (t : Tid) (p : RCU.Obj) (hd : RCU.disposing (s.pc t) = some p) :
+    ∀ u k r, s.secStart u = some k → s.retiredAt p = some r → r < k :=
+  let hI := RCU.inv_reachable b n c bc s h
+  RCU.invQ_disposing hI.A hI.Q t p hd
+
+/-- Nesting does not end a section early.  A thread is inside a section exactly when its nest count is non-zero,
+    and an action of thread `t` leaves the recorded start of `u`'s outermost section untouched unless it is `u`'s own
+    access_unlock store that brings the nest count from 1 to 0.  (In particular a nested access_lock keeps the start,
+    and a nested access_unlock - nest count > 1 - does not clear it.) -/
+theorem C04_nested (b : Bool) (n c bc : Nat) (s : RCU.St) (h : RCU.model.Reachable (RCU.init b n c bc) s) :
+    (∀ u, s.secStart u = none ↔ (s.ctl u).nest = 0) ∧
+    ∀ t a s' o, RCU.model.apply s t a = some (s', o) → ∀ u k, s.secStart u = some k →
+      s'.secStart u = some k ∨
+      (u = t ∧ s.pc t = .ruStore (s.ctl t) ∧ (s.ctl t).nest = 1 ∧ s'.secStart t = none ∧ (s'.ctl t).nest = 0) := by
+  have hI := RCU.inv_reachable b n c bc s h
+  refine ⟨hI.A.a1, ?_⟩
+  intro t a s' o hap u k hk
+  have tr := RCU.trans_of_apply hap
+  have a1 := hI.A.a1 u
+  cases tr
+  case rlStore g hpc =>
+    have := hI.A.a7 t g hpc
+    left; dsimp only; grind [upd]
+  case ruStore c' hpc =>
+    have := hI.A.a4 t c' hpc
+    dsimp only; grind [upd]
+  all_goals (left; exact hk)
+
+/-! ### Non-vacuity -/
+
+/-- A reader forces the synchronizer to spin: thread 1 is inside a section when thread 0 retires object 7
+    (instant flavour); after the first flip thread 0 loops on thread 1's control word (4 extra steps below change
+    nothing but the clock) and has disposed nothing. -/
+example : ∃ s os, RCU.model.run (RCU.init false 2 1 2)
+    [(1, .invoke ⟨"rlock", [1]⟩), (1, .step), (1, .step), (1, .step), (1, .ret),
+     (0, .invoke ⟨"retire", [0, 7]⟩), (0, .step), (0, .step), (0, .step), (0, .step),
+     (0, .step), (0, .step), (0, .step), (0, .step), (0, .step), (0, .step)] = some (s, os)
+    ∧ s.pc 0 = .waitLd ⟨[7], 0⟩ false 1 ∧ s.secStart 1 = some 3 ∧ s.retiredAt 7 = some 5
+    ∧ s.mustWait 1 = some 3 ∧ s.disposed 7 = 0 := by
+  refine ⟨_, _, rfl, ?_, ?_, ?_, ?_, ?_⟩ <;> decide
+
+/-- ... and once the reader leaves, the synchronizer gets through both rounds and the object is disposed. -/
+example : ∃ s os, RCU.model.run (RCU.init false 2 1 2)
+    [(1, .invoke ⟨"rlock", [1]⟩), (1, .step), (1, .step), (1, .step), (1, .ret),
+     (0, .invoke ⟨"retire", [0, 7]⟩), (0, .step), (0, .step), (0, .step), (0, .step),
+     (0, .step), (0, .step),
+     (1, .invoke ⟨"runlock", [1]⟩), (1, .step), (1, .step), (1, .ret),
+     (0, .step), (0, .step),
+     (0, .step), (0, .step), (0, .step), (0, .step), (0, .step),
+     (0, .step), (0, .step), (0, .ret)] = some (s, os)
+    ∧ s.pc 0 = .idle ∧ s.secStart 1 = none ∧ s.disposed 7 = 1 ∧ s.locked = none := by
+  refine ⟨_, _, rfl, ?_, ?_, ?_, ?_⟩ <;> decide
+
+/-- Nesting depth 2: the inner unlock keeps the section (and its start clock) open, the outer one closes it. -/
+example : ∃ s os, RCU.model.run (RCU.init true 1 4 4)
+    [(0, .invoke ⟨"rlock", [0]⟩), (0, .step), (0, .step), (0, .step), (0, .ret),
+     (0, .invoke ⟨"rlock", [0]⟩), (0, .step), (0, .step), (0, .ret),
+     (0, .invoke ⟨"runlock", [0]⟩), (0, .step), (0, .step), (0, .ret)] = some (s, os)
+    ∧ (s.ctl 0).nest = 1 ∧ s.secStart 0 = some 3 := by
+  refine ⟨_, _, rfl, ?_, ?_⟩ <;> decide
+
+example : ∃ s os, RCU.model.run (RCU.init true 1 4 4)
+    [(0, .invoke ⟨"rlock", [0]⟩), (0, .step), (0, .step), (0, .step), (0, .ret),
+     (0, .invoke ⟨"rlock", [0]⟩), (0, .step), (0, .step), (0, .ret),
+     (0, .invoke ⟨"runlock", [0]⟩), (0, .step), (0, .step), (0, .ret),
+     (0, .invoke ⟨"runlock", [0]⟩), (0, .step), (0, .step), (0, .ret)] = some (s, os)
+    ∧ (s.ctl 0).nest = 0 ∧ s.secStart 0 = none := by
+  refine ⟨_, _, rfl, ?_, ?_⟩ <;> decide
 
 end CdsVerif.Props.C04
